@@ -192,7 +192,8 @@ def validate_ta(ctx, trace_path, keys, desc, kinds, *, behs=None, timeout=1200):
         ctx.notes.append("drift (%s): %s line %d differs from the mechanism layer of TcpAuth.tla: %s" % (
             res["dkind"], desc, res["drift"], json.dumps(abbreviate(sl[-1]))))
     seen = set()
-    for line, kind in res["viols"]:
+    for v in res["viols"]:
+        line, kind = v[0], v[1]
         sl = scenario_slice(rows, line)
         if kind not in kinds:
             ctx.cov["drift"] += 1
